@@ -4,7 +4,7 @@
 //   -DCFG_MANUAL=0   activation
 //   -DCFG_L=4        substitution limit
 //   -DCFG_CAP=0      task capacity (0 = library default = N)
-//   -DCFG_PAYLOAD=0  0 void | 1 1-byte struct | 2 3-byte | 3 {i32,char[8]} | 4 double | 5 alignas(16) 32 bytes | 6 64 bytes
+//   -DCFG_PAYLOAD=0  0 void | 1 1-byte struct | 2 3-byte | 3 {i32,char[8]} | 4 double | 5 alignas(16) 32 bytes | 6 64 bytes | 7 300 bytes
 //   -DCFG_CTX=1      0 empty | 1 value | 2 reference | 3 pointer | 4 one-byte value
 //   -DCFG_INJ=0      injections per state (0..3)
 //   -DCFG_BARE=0     the last CFG_BARE states define no callbacks at all
@@ -140,6 +140,17 @@ struct Payload { uint64_t q[8]; };
 constexpr uint64_t TAGMASK = ~0ull;
 inline Payload makePayload(uint64_t tag) { Payload p; for (unsigned i = 0; i < 8; ++i) p.q[i] = tag + i * 0x0101010101010101ull; return p; }
 inline uint64_t tagOf(const Payload& p) { for (unsigned i = 1; i < 8; ++i) if (p.q[i] != p.q[0] + i * 0x0101010101010101ull) return ~p.q[0]; return p.q[0]; }
+#elif CFG_PAYLOAD == 7
+// larger than any 8-bit size: 300 bytes, every byte derived from the tag
+struct Payload { uint8_t b[300]; };
+constexpr uint64_t TAGMASK = ~0ull;
+inline Payload makePayload(uint64_t tag) { Payload p; for (unsigned i = 0; i < 300; ++i) p.b[i] = static_cast<uint8_t>((tag >> (8 * (i & 7))) + i * 31 + (i >> 3)); return p; }
+inline uint64_t tagOf(const Payload& p) {
+	uint64_t t = 0;
+	for (unsigned i = 0; i < 8; ++i) t |= static_cast<uint64_t>(static_cast<uint8_t>(p.b[i] - i * 31 - (i >> 3))) << (8 * i);
+	for (unsigned i = 0; i < 300; ++i) if (p.b[i] != static_cast<uint8_t>((t >> (8 * (i & 7))) + i * 31 + (i >> 3))) return ~t;
+	return t;
+}
 #else
 #error "unknown CFG_PAYLOAD"
 #endif
